@@ -39,7 +39,9 @@ type c14Task struct {
 	Frags       []string   `json:"frags,omitempty"`  // literals for which this task constructs Memoize(Op(lit)) fragments first (cooperative construction)
 	FromFile    bool       `json:"from_file,omitempty"` // the input is loaded with text.ReadFile (the library's only I/O) from a file the harness wrote; equal inputs share one path
 	path        string
+	soloCtx     func() *parsley.Context // same placement as in the concurrent phase, fresh objects
 	StaticCheck bool       `json:"static_check,omitempty"`
+	Transform   bool       `json:"transform,omitempty"` // ctx.EnableTransformation()
 }
 
 type c14Case struct {
@@ -51,6 +53,10 @@ type c14Case struct {
 	// every run that parses it (own file set, reader and context per run, all prepared - and
 	// the file's line table built - before the runs start)
 	ShareFiles bool `json:"share_files,omitempty"`
+	// ShareFileSet: one parsley.FileSet holds the (own) input files of all runs - global
+	// positions are unique across a project's files - and is filled before the runs start;
+	// every run has its own context and reader
+	ShareFileSet bool `json:"share_file_set,omitempty"`
 	Graphs      []GraphSpec `json:"graphs"`
 	Tasks       []c14Task   `json:"tasks"`
 	MapSeed     uint64      `json:"map_seed"`
@@ -188,8 +194,9 @@ func (*c14Prop) Gen(r *Rand, pl *Plan) Case {
 	}
 	useFiles := r.Chance(1, 10) // all inputs of this case go through text.ReadFile
 	c.ShareFiles = !useFiles && r.Chance(1, 10)
+	c.ShareFileSet = !useFiles && !c.ShareFiles && r.Chance(1, 10) // (prefix / huge placements of the tasks are ignored in this mode)
 	for i := 0; i < nt; i++ {
-		t := c14Task{Graph: r.Intn(ng), Eval: r.Chance(2, 3), StaticCheck: r.Chance(1, 6)}
+		t := c14Task{Graph: r.Intn(ng), Eval: r.Chance(2, 3), StaticCheck: r.Chance(1, 6), Transform: r.Chance(1, 6)}
 		spec := &c.Graphs[t.Graph]
 		if r.Chance(1, 6) {
 			own := genGraphSpec(r)
@@ -295,6 +302,9 @@ func (t *c14Task) observe(p parsley.Parser) (obs string) {
 
 // observeRaw also hands back the raw result (value or tree) for the aliasing oracle.
 func (t *c14Task) observeRaw(p parsley.Parser) (obs string, raw interface{}) {
+	if t.soloCtx != nil {
+		return t.observeCtx(p, t.soloCtx())
+	}
 	return t.observeCtx(p, nil)
 }
 
@@ -343,6 +353,9 @@ func (t *c14Task) observeCtx(p parsley.Parser, prepared *parsley.Context) (obs s
 	ctx.SetUserContext(fmt.Sprintf("uc%x", fnv(0, t.Input)&0xffff)) // every caller has its own evaluation context
 	if t.StaticCheck {
 		ctx.EnableStaticCheck()
+	}
+	if t.Transform {
+		ctx.EnableTransformation()
 	}
 	var sb strings.Builder
 	if t.Eval {
@@ -523,6 +536,32 @@ func c14Run(c *c14Case, probeSequential bool) Verdict {
 			}
 			prepared[i+1] = t.prepare(f)
 			f.Position(0) // the caller resolves a position once, which builds the line table
+		}
+	}
+	if c.ShareFileSet && !c.ShareFiles {
+		// layout(k) builds a file set with the prelude and the inputs of tasks 1..k from
+		// fresh objects and returns the context of task k
+		layout := func(upto int) (*parsley.FileSet, *parsley.Context) {
+			fs := parsley.NewFileSet()
+			fs.AddFile(text.NewFile("prelude", []byte("prelude\n")))
+			var ctx *parsley.Context
+			for i := 0; i < upto; i++ {
+				f := text.NewFile(fmt.Sprintf("in%d", i+1), []byte(c.Tasks[i].Input))
+				fs.AddFile(f)
+				ctx = parsley.NewContext(fs, text.NewReader(f))
+			}
+			return fs, ctx
+		}
+		fs := parsley.NewFileSet()
+		fs.AddFile(text.NewFile("prelude", []byte("prelude\n")))
+		for i := range c.Tasks {
+			t := &c.Tasks[i]
+			f := text.NewFile(fmt.Sprintf("in%d", i+1), []byte(t.Input))
+			fs.AddFile(f)
+			prepared[i+1] = parsley.NewContext(fs, text.NewReader(f))
+			k := i + 1
+			t.soloCtx = func() *parsley.Context { _, ctx := layout(k); return ctx }
+			v.Probes["runs_on_a_shared_file_set"]++
 		}
 	}
 	before := snapshotRoots()
@@ -843,9 +882,9 @@ func (*c14Prop) Shrink(cc Case) []Case {
 			k.Tasks[i].Frags = t.Frags[:len(t.Frags)-1]
 			out = append(out, k)
 		}
-		if t.StaticCheck {
+		if t.StaticCheck || t.Transform {
 			k := clone()
-			k.Tasks[i].StaticCheck = false
+			k.Tasks[i].StaticCheck, k.Tasks[i].Transform = false, false
 			out = append(out, k)
 		}
 		// shorten the input
@@ -857,9 +896,9 @@ func (*c14Prop) Shrink(cc Case) []Case {
 			}
 		}
 	}
-	if c.ShareFiles {
+	if c.ShareFiles || c.ShareFileSet {
 		k := clone()
-		k.ShareFiles = false
+		k.ShareFiles, k.ShareFileSet = false, false
 		out = append(out, k)
 	}
 	if len(c.Warm) > 0 {
